@@ -825,6 +825,10 @@ func fillPartitionMapV2(ns string,
 		newNodesLeaderMap[n] = make([]int, 0)
 	}
 	for pid, olist := range oldPartitionNodes {
+		if len(olist) > replica {
+			// only the first replicas can be kept, ignore the others
+			olist = olist[:replica]
+		}
 		for i, name := range olist {
 			if i == 0 {
 				pidlist, ok := newNodesLeaderMap[name]
@@ -847,6 +851,9 @@ func fillPartitionMapV2(ns string,
 		var oldlist []string
 		if pid < len(oldPartitionNodes) {
 			oldlist = oldPartitionNodes[pid]
+		}
+		if len(oldlist) > replica {
+			oldlist = oldlist[:replica]
 		}
 		nlist := make([]string, replica)
 		partitionNodes[pid] = nlist
